@@ -2,7 +2,7 @@
 import looplib as L
 from vlib import Failure, finish, hexs
 
-COQ_FILES = L.LOOP_COQ_FILES + L.REFINE_COQ_FILES + L.CANCEL_COQ_FILES
+COQ_FILES = L.LOOP_COQ_FILES + L.REFINE_COQ_FILES + L.CANCEL_COQ_FILES + L.MUTE_COQ_FILES
 
 
 def N(name):
